@@ -73,6 +73,9 @@ func (g *GenCfg) genNLV(r *RNG) []interface{} {
 	for i := 0; i < n; i++ {
 		out = append(out, []interface{}{langTags[perm[i]], r.Pick(texts)})
 	}
+	if r.Chance(15) {
+		out[r.Intn(n)].([]interface{})[0] = "-" // one value without a language among tagged ones
+	}
 	if g.RepeatLang && r.Chance(30) {
 		tag := "-"
 		if r.Bool() {
@@ -129,12 +132,21 @@ func (g *GenCfg) genItemList(r *RNG, depth int, n int) []interface{} {
 		case p < 55 || depth <= 0:
 			out = append(out, T{"iri": g.nextID("iri")})
 		case p < 92 || !g.Links:
-			out = append(out, g.genNode(r, objectGoTypes[r.Intn(len(objectGoTypes))], depth-1, true))
+			out = append(out, g.withID(g.genNode(r, objectGoTypes[r.Intn(len(objectGoTypes))], depth-1, true)))
 		default:
-			out = append(out, g.genNode(r, "Link", depth-1, true))
+			out = append(out, g.withID(g.genNode(r, "Link", depth-1, true)))
 		}
 	}
 	return out
+}
+
+// members of one list carry pairwise distinct ids (the quantifier of C01/C03/C05)
+func (g *GenCfg) withID(n T) T {
+	f := n["f"].(T)
+	if _, ok := f["ID"]; !ok {
+		f["ID"] = T{"s": g.nextID("member")}
+	}
+	return n
 }
 
 // genNode: a struct value of the given Go type. embedded tells whether it sits inside another value.
